@@ -1,4 +1,5 @@
 import I18n.Lemmas.PyFmtGroups
+import I18n.Lemmas.PyFmtTables
 /-!
 # C12 — the Python %-format parser is consistent with CPython's `%` operator
 
@@ -12,8 +13,42 @@ namespace I18n.Props.C12
 open I18n I18n.PyFmt I18n.Spec.CPyPercent I18n.Spec.PyFmtArgs
 open I18n.Generated
 
+/-! ## Pins: what the translator reads from the live module -/
+
+/-- the `_info` strings, the limit, the `*` argument type, the own error classes and `int()`'s digit limit (switched off
+    by `lib/__init__.py`) are what the model and the reference were written against -/
+theorem info_pin :
+    PyFormatTables.flagChars = ['#', '0', '-', ' ', '+'] ∧ PyFormatTables.lengthChars = ['h', 'l', 'L'] ∧
+    PyFormatTables.octCvt = ['o'] ∧ PyFormatTables.hexCvt = ['x', 'X'] ∧
+    PyFormatTables.intCvt = ['o', 'x', 'X', 'd', 'i', 'u'] ∧ PyFormatTables.floatCvt = ['e', 'E', 'f', 'F', 'g', 'G'] ∧
+    PyFormatTables.otherCvt = ['c', 's', 'r', 'a'] ∧
+    PyFormatTables.allCvt = ['o', 'x', 'X', 'd', 'i', 'u', 'e', 'E', 'f', 'F', 'g', 'G', 'c', 's', 'r', 'a', '%'] ∧
+    PyFormatTables.SSIZE_MAX = 2 ^ 31 - 1 ∧ PyFormatTables.SSIZE_MAX = Spec.CPyPercent.INT_MAX ∧
+    PyFormatTables.intMaxStrDigits = 0 ∧
+    PyFormatTables.variableWidthType = "int" ∧ PyFormatTables.variablePrecisionType = "int" ∧
+    PyFormatTables.errorClasses = ["ArgumentIndexingMixture", "ArgumentTypeMismatch", "Error", "ForbiddenArgumentKey",
+      "ObsoleteConversion", "PrecisionRangeError", "RedundantFlag", "RedundantLength", "RedundantPrecision", "WidthRangeError"] := by
+  refine ⟨rfl, rfl, rfl, rfl, rfl, rfl, rfl, rfl, by decide, by decide, rfl, by decide, by decide, by decide⟩
+
+/-- the probed type of every conversion character: CPython's requirement on the argument (`d i u o x X` an integer,
+    `e E f F g G` a real number, `c` a character or code point, `s r a` anything, `%` nothing) -/
+theorem types_pin :
+    PyFormatTables.typeTable = [('o', "int"), ('x', "int"), ('X', "int"), ('d', "int"), ('i', "int"), ('u', "int"),
+      ('e', "float"), ('E', "float"), ('f', "float"), ('F', "float"), ('g', "float"), ('G', "float"),
+      ('c', "chr"), ('s', "str"), ('r', "object"), ('a', "object"), ('%', "None")] := by decide
+
+/-- the model of `Conversion.__init__` evaluated by the kernel on every probed directive (conversion x flag sets x
+    precision kinds x length; widths and precisions around `SSIZE_MAX`) gives the outcome and the warnings that the
+    live module gave -/
+theorem probes_pin :
+    PyFormatTables.warnTable.all (fun row => probe row.1 == row.2) = true ∧
+    PyFormatTables.rangeTable.all (fun row => probe row.1 == row.2) = true := ⟨warnTable_pin, rangeTable_pin⟩
+
+/-! ## The property -/
+
 theorem parse_loop {s : List Char} {r : Result} (h : parse s = .ok r) :
-    ∃ st, loop true (s.length + 1) s [] St.init = .ok st ∧ r.seq = st.seq ∧ r.map = groups st.map := by
+    ∃ st, loop true (s.length + 1) s [] St.init = .ok st ∧ r.seq = st.seq ∧ r.map = groups st.map ∧
+      (groups st.map).all (fun g => sameType g.2) = true := by
   unfold parse parseW at h
   cases hl : loop true (s.length + 1) s [] St.init with
   | error e => rw [hl] at h; cases h
@@ -21,7 +56,7 @@ theorem parse_loop {s : List Char} {r : Result} (h : parse s = .ok r) :
     rw [hl] at h
     simp only [] at h
     split at h
-    · cases h; exact ⟨st, rfl, rfl, rfl⟩
+    · rename_i hall; cases h; exact ⟨st, rfl, rfl, rfl, hall⟩
     · cases h
 
 /-- **If the parser accepts a string, CPython formats it** when given arguments of the shape and types the parser
@@ -29,7 +64,7 @@ theorem parse_loop {s : List Char} {r : Result} (h : parse s = .ok r) :
     with a value of the reported type under every key of `map_arguments`. -/
 theorem accept_formats {s : List Char} {r : Result} {a : Args} (hp : PlainPercent s) (h : parse s = .ok r)
     (hm : Matches r a) : format s a = .ok () := by
-  obtain ⟨st, hl, hseq, hmap⟩ := parse_loop h
+  obtain ⟨st, hl, hseq, hmap, _⟩ := parse_loop h
   cases a with
   | tuple vs =>
     obtain ⟨m1, m2⟩ := hm
@@ -90,5 +125,102 @@ theorem error_means_malformed {s : List Char} (hp : PlainPercent s) (h : parse s
     format s a ≠ .ok () := by
   intro ha
   rcases reject_reasons hp h ⟨a, ha⟩ with r | r | r | r <;> cases r
+
+/-- **The arguments the statement speaks about exist**: the canonical arguments of an accepted string (a tuple with
+    one value per reported entry, or a mapping with one value per reported key — possible because the parser insists on
+    one type per key and never reports both kinds) have the reported shape and types. -/
+theorem argsOf_matches {s : List Char} {r : Result} (h : parse s = .ok r) : Matches r (argsOf r) := by
+  obtain ⟨st, hl, hseq, hmap, hall⟩ := parse_loop h
+  have inv := loop_inv true _ _ _ _ _ hl inv_init
+  unfold argsOf
+  by_cases hme : r.map.isEmpty = true
+  · simp only [hme, if_true, Matches]
+    refine ⟨by simpa using hme, ?_⟩
+    rw [hseq]
+    exact okAll_default _ inv.seq
+  · simp only [hme, Bool.false_eq_true, if_false, Matches]
+    have hne : st.map ≠ [] := by
+      intro h0; apply hme; rw [hmap, h0]; rfl
+    refine ⟨?_, ?_⟩
+    · rw [hseq]
+      rcases inv.excl with h0 | h0
+      · exact h0
+      · exact absurd h0 hne
+    · intro k es hk
+      rw [hmap] at hk ⊢
+      obtain ⟨hes, e1, he1⟩ := groups_spec hk
+      have hkmem : k ∈ distinctKeys (st.map.map (·.1)) := distinctKeys_mem _ _ (List.mem_map.2 ⟨(k, e1), he1, rfl⟩)
+      refine ⟨headVal es, ?_, ?_⟩
+      · have := lookup_groups (fun k => (st.map.filter (fun p => p.1 == k)).map (·.2)) headVal _ k hkmem
+        rw [hes]
+        exact this
+      · have hst := List.all_eq_true.1 hall (k, es) hk
+        simp only [] at hst
+        have hconv : ∀ e ∈ es, e.kind = .conv ∧ Good e := by
+          intro e he
+          rw [hes] at he
+          obtain ⟨p, hp, rfl⟩ := List.mem_map.1 he
+          exact inv.map p (List.mem_filter.1 hp).1
+        cases es with
+        | nil =>
+          exfalso
+          have : e1 ∈ (st.map.filter (fun p => p.1 == k)).map (·.2) :=
+            List.mem_map.2 ⟨(k, e1), List.mem_filter.2 ⟨he1, by simp⟩, rfl⟩
+          rw [← hes] at this
+          cases this
+        | cons e0 rest =>
+          intro e he
+          obtain ⟨hk0, hg0⟩ := hconv e0 List.mem_cons_self
+          rcases List.mem_cons.1 he with rfl | he'
+          · exact okFor_default hg0
+          · simp only [sameType, List.all_eq_true, beq_iff_eq] at hst
+            exact okFor_same_type (hconv e he).1 hk0 (hst e he') hg0
+
+/-- the same with the canonical arguments: an accepted string is formatted by CPython with them -/
+theorem accept_formats_canonical {s : List Char} {r : Result} (hp : PlainPercent s) (h : parse s = .ok r) :
+    format s (argsOf r) = .ok () := accept_formats hp h (argsOf_matches h)
+
+/-- **If CPython rejects the string whatever the arguments, the parser rejects it.** -/
+theorem malformed_rejected {s : List Char} (hp : PlainPercent s) (h : ∀ a, format s a ≠ .ok ()) :
+    ∃ e, parse s = .error e := by
+  cases hr : parse s with
+  | error e => exact ⟨e, rfl⟩
+  | ok r => exact absurd (accept_formats_canonical hp hr) (h _)
+
+/-! ## Non-vacuity -/
+
+/-- named specifications with a nested-parenthesis key, and `%%` -/
+example : (parse "%(a(b))s x %(n)d%%".toList).map (fun r => (r.seq, r.map.map (fun g => (String.ofList g.1, g.2.map (·.type))))) =
+    .ok ([], [("a(b)", ["str"]), ("n", ["int"])]) := by rfl
+/-- unnamed `*.*`: width, precision, value in that order -/
+example : (parse "ab%*.*lu%-05d".toList).map (fun r => (r.seq.map (fun e => (e.kind, e.type, e.parent)), r.warnings)) =
+    .ok ([(.width, "int", 1), (.prec, "int", 1), (.conv, "int", 1), (.conv, "int", 2)],
+      [.RedundantLength, .ObsoleteConversion, .RedundantFlag]) := by rfl
+example : PlainPercent "100%% of %(n)d".toList := by decide
+example : ¬ PlainPercent "%5%".toList := by decide
+/-- `accept_formats` applies: the canonical arguments of `%(a)s %(n)5.2f` are a mapping, and CPython's model formats them -/
+example : (parse "%(a)s %(n)5.2f".toList).map argsOf =
+    .ok (.dict [("a".toList, .str 3), ("n".toList, .float)]) := by rfl
+example : format "%(a)s %(n)5.2f".toList (.dict [("a".toList, .str 3), ("n".toList, .float)]) = .ok () := by rfl
+example : format "%*.*lu%%".toList (.tuple [.int 7, .int (-2), .int 5]) = .ok () := by rfl
+/-- the documented rejections are rejections of strings CPython can format (`reject_reasons` is not vacuous) -/
+example : (parse "%s %(a)s".toList).map (·.seq) = .error .ArgumentIndexingMixture := by rfl
+example : format "%s %(a)s".toList (.dict [("a".toList, .int 1)]) = .ok () := by rfl
+example : (parse "%(a)d %(a)s".toList).map (·.seq) = .error .ArgumentTypeMismatch := by rfl
+example : format "%(a)d %(a)s".toList (.dict [("a".toList, .int 1)]) = .ok () := by rfl
+example : (parse "%2147483648d".toList).map (·.seq) = .error .WidthRangeError := by rfl
+example : format "%2147483648d".toList (.tuple [.int 1]) = .ok () := by rfl
+/-- the precision limit of the integer conversions (fix 84eb507): CPython raises OverflowError whatever the argument -/
+example : (parse "%.2147483645d".toList).map (·.seq) = .error .PrecisionRangeError := by rfl
+example : format "%.2147483645d".toList (.tuple [.int 1]) = .error .overflow := by rfl
+example : (parse "%.2147483644d %.2147483647s".toList).map (·.seq.map (·.type)) = .ok ["int", "str"] := by rfl
+/-- malformed strings: rejected by both (`error_means_malformed`, `malformed_rejected`) -/
+example : (parse "%(a".toList).map (·.seq) = .error .Error := by rfl
+example : format "%(a".toList (.dict []) = .error .incompleteKey := by rfl
+example : (parse "100%".toList).map (·.seq) = .error .Error := by rfl
+example : format "%!".toList (.tuple [.int 1]) = .error .unsupportedChar := by rfl
+/-- outside the domain: the parser types `%5%` as consuming nothing, CPython 3.12 rejects it -/
+example : (parse "%5%".toList).map (·.seq) = .ok [] := by rfl
+example : format "%5%".toList (.tuple []) = .error .notEnoughArgs := by rfl
 
 end I18n.Props.C12
